@@ -597,6 +597,20 @@ def install_axes(ex):
 CA = z3.Function("cell_axis_value", sv.IntS, sv.IntS, sv.IntS, sv.RealS)
 
 
+def seq_items(r):
+    """the elements of a tuple / list result of concrete length (None otherwise): a list built by a loop with append has no
+    literal element list, but its length is still a number"""
+    items = getattr(r, "items", None)
+    if items is not None:
+        return list(items)
+    n = getattr(r, "n", None)
+    if n is not None and hasattr(r, "at"):
+        n = sv.simp(n)
+        if z3.is_int_value(n) and n.as_long() <= 8:
+            return [r.at(z3.IntVal(k)) for k in range(n.as_long())]
+    return None
+
+
 def register_axes(reg):
     LOC = lambda ctx, g: ctx.get(g, "_data_location").e       # 0 = CELLS, 1 = POINTS
 
@@ -617,7 +631,7 @@ def register_axes(reg):
                        z3.ForAll([i], Implies(And(0 <= i, i < r_k.shape[0]), r_k.at((i,)) == If(n > 1, mid, AX(g.e, z3.IntVal(k), i)))))
 
         def ca_post(ctx, r, d=d):
-            items = getattr(r, "items", None)
+            items = seq_items(r)
             if items is None or len(items) != d:
                 return {"one cell axis per axis": z3.BoolVal(False)}
             return {f"axis {k}: cell centres are the means of neighbouring points": cell_axis_ok(items[k], ctx.self, k) for k in range(d)}
@@ -627,7 +641,7 @@ def register_axes(reg):
 
         def da_post(ctx, r, d=d):
             g = ctx.self
-            items = getattr(r, "items", None)
+            items = seq_items(r)
             if items is None or len(items) != d:
                 return {"one data axis per data dimension": z3.BoolVal(False)}
             out = {}
@@ -770,7 +784,7 @@ def register_counts(reg):
                          name=f"cell_count{tag}", primary=False))
 
         def ds_post(ctx, r, d=d):
-            items = getattr(r, "items", None)
+            items = seq_items(r)
             if items is None or len(items) != d or not all(isinstance(x, sv.SInt) for x in items):
                 return {"one extent per data dimension": z3.BoolVal(False)}
             g = ctx.self
